@@ -287,7 +287,14 @@ pub fn run_op<F: Future>(world: &Shared, mut fut: Pin<&mut F>, opts: OpOpts, pen
     vtime::clear_alarms();
     world.borrow_mut().begin_op();
     loop {
-        match fut.as_mut().poll(&mut cx) {
+        vtime::yielded();
+        let polled = fut.as_mut().poll(&mut cx);
+        if vtime::take_spun() {
+            let mut w = world.borrow_mut();
+            w.clock_spin = true;
+            w.ev(Ev::ClockSpin);
+        }
+        match polled {
             Poll::Ready(v) => return Ran::Done(v),
             Poll::Pending => {
                 let why = world.borrow_mut().pend_why.take();
@@ -722,6 +729,8 @@ impl<'d> Exec<'d> {
                     for _ in 0..n {
                         let p = Publication::new("burn", |_b: &mut [u8]| -> Result<usize, ()> { Err(()) }).qos(QoS::AtLeastOnce);
                         last = conn.publish(p).await.map_err(pub_err);
+                        // each refused publish is a call of its own as far as the clock watchdog goes
+                        vtime::yielded();
                         if !matches!(last, Err(ErrRepr::Payload)) {
                             break;
                         }
